@@ -621,6 +621,79 @@ def views_suite(ctx, density=False):
     ctx.ob(ob, ok, "search", "" if ok else "another public view of the circuit deviates")
 
 
+def special_layout_suite(ctx, density=False):
+    """layouts and histories a shortcut inside the backend loop would get wrong: diagonal
+    matrix-valued gates on non-ascending qubits, adjacent gates of one class that differ only in
+    controls added by `controlled_by`, gates added after `compile()`"""
+    prop = "C02" if density else "C01"
+    ob = f"{prop}_search_special_layouts"
+    rng = ctx.rng
+    ok = True
+    cases = []
+    # diagonal unitaries with a diagonal that is not symmetric under qubit exchange
+    for qs in ([2, 0], [1, 0], [3, 1], [2, 0, 1], [3, 0, 2], [0, 2], [1, 3, 2]):
+        k = len(qs)
+        ph = [round(rng.uniform(-3, 3), 4) for _ in range(2**k)]
+        cases.append(("diagonal-unitary", f"c.add(gates.Unitary(np.diag(np.exp(1j * np.array({ph}))), *{qs}))\nops.append((np.diag(np.exp(1j * np.array({ph}))), {qs}))\n"))
+    # adjacent pairs of one class differing only in controlled_by controls / placement
+    X = "np.array([[0, 1], [1, 0]])"
+    for a, b in (("gates.H(1)", "gates.H(1).controlled_by(0)"), ("gates.H(1).controlled_by(0)", "gates.H(1)"), ("gates.X(3).controlled_by(0, 1, 2)", "gates.X(3)"),
+                 ("gates.Z(2)", "gates.Z(2).controlled_by(0, 3)"), ("gates.Y(0).controlled_by(2)", "gates.Y(0).controlled_by(3)"), ("gates.SWAP(0, 1)", "gates.SWAP(0, 1).controlled_by(3)"),
+                 ("gates.H(2)", "gates.H(2)"), ("gates.CNOT(0, 1)", "gates.CNOT(0, 1)")):
+        def op(src):
+            base = src.split(".controlled_by")[0]
+            cs = eval("[" + src.split(".controlled_by(")[1].rstrip(")") + "]") if ".controlled_by(" in src else []
+            name = base.split("(")[0].split(".")[1]
+            args = eval("[" + base.split("(")[1].rstrip(")") + "]")
+            m = {"H": _H, "X": X, "Y": "np.array([[0, -1j], [1j, 0]])", "Z": "np.diag([1, -1])",
+                 "SWAP": "np.array([[1, 0, 0, 0], [0, 0, 1, 0], [0, 1, 0, 0], [0, 0, 0, 1]])",
+                 "CNOT": "np.array([[1, 0, 0, 0], [0, 1, 0, 0], [0, 0, 0, 1], [0, 0, 1, 0]])"}[name]
+            return f"(ctrl({m}, {len(cs)}), {cs + args})"
+        cases.append(("adjacent-same-class", f"c.add({a}); ops.append({op(a)})\nc.add({b}); ops.append({op(b)})\n"))
+    for key, gsrc in cases:
+        seed = rng.randint(0, 2**31)
+        body = (f"DENSITY = {density}\nc = Circuit(4, density_matrix=DENSITY)\nops = []\nc.add(gates.RY(0, 0.4)); ops.append((np.array([[np.cos(0.2), -np.sin(0.2)], [np.sin(0.2), np.cos(0.2)]]), [0]))\n"
+                + gsrc + f"c.add(gates.H(3)); ops.append(({_H}, [3]))\n"
+                f"r = np.random.default_rng({seed})\npsi = r.normal(size=16) + 1j * r.normal(size=16); psi /= np.linalg.norm(psi)\n"
+                "init = dm_of(psi) if DENSITY else psi\nout = np.asarray(nb.execute_circuit(c, initial_state=init.copy()).state())\n"
+                "ref = ref_run(4, ops, psi); ref = dm_of(ref) if DENSITY else ref\nd = np.abs(out - ref).max()\n"
+                "out2 = np.asarray(nb.execute_circuit(c.copy(deep=True), initial_state=init.copy()).state())\nd = max(d, np.abs(out2 - ref).max())\n")
+        ctx.case(("special-layout", key, gsrc))
+        ctx.stat(f"special_layouts:{key}")
+        env = dict(ns())
+        try:
+            exec(body, env)  # noqa: S102
+        except Exception as e:  # noqa: BLE001
+            ok = False
+            _fail(ctx, f"special-layout:{key}:raises", f"{type(e).__name__}: {e}", body + "sys.exit(0)\n", ob)
+            continue
+        if not env["d"] < 1e-9:
+            ok = False
+            _fail(ctx, f"special-layout:{key}", f"{key}: a 4-qubit circuit [RY(0), …, H(3)] with {gsrc.splitlines()[0][:120]} deviates by {env['d']:.3e} from the product of the documented matrices",
+                  body + "print(d)\nsys.exit(0 if d < 1e-9 else 1)\n", ob)
+    # compile(), then add, then execute (where the backend supports compile)
+    body = (f"DENSITY = {density}\nc = Circuit(3, density_matrix=DENSITY)\nc.add(gates.H(0)); c.add(gates.CNOT(0, 1))\n"
+            "try:\n    c.compile()\n    compiled = True\nexcept Exception:\n    compiled = False\n"
+            "c.add(gates.RY(2, 0.9)); c.add(gates.CNOT(1, 2))\n"
+            f"ops = [({_H}, [0]), (np.array([[1, 0, 0, 0], [0, 1, 0, 0], [0, 0, 0, 1], [0, 0, 1, 0]]), [0, 1]),\n"
+            "       (np.array([[np.cos(0.45), -np.sin(0.45)], [np.sin(0.45), np.cos(0.45)]]), [2]), (np.array([[1, 0, 0, 0], [0, 1, 0, 0], [0, 0, 0, 1], [0, 0, 1, 0]]), [1, 2])]\n"
+            "try:\n    out = np.asarray(c().state())\nexcept Exception:\n    out = None\n"
+            "ref = ref_run(3, ops); ref = dm_of(ref) if DENSITY else ref\nd = 0.0 if out is None else np.abs(out - ref).max()\n")
+    env = dict(ns())
+    ctx.case(("compile-add",))
+    try:
+        exec(body, env)  # noqa: S102
+        ctx.stat("special_layouts:compile-" + ("ok" if env["compiled"] else "unsupported"))
+        if not env["d"] < 1e-9:
+            ok = False
+            _fail(ctx, "special-layout:compile-then-add", f"gates added after Circuit.compile() and before the first execution are not applied (deviation {env['d']:.3e})",
+                  body + "print(d)\nsys.exit(0 if d < 1e-9 else 1)\n", ob)
+    except Exception as e:  # noqa: BLE001
+        ok = False
+        _fail(ctx, "special-layout:compile:raises", f"{type(e).__name__}: {e}", body + "sys.exit(0)\n", ob)
+    ctx.ob(ob, ok, "search", "" if ok else "a special layout or history is mis-executed")
+
+
 def run_suites(ctx, density=False):
     qulacs_suite(ctx, density)
     wide_suite(ctx, density)
@@ -630,3 +703,4 @@ def run_suites(ctx, density=False):
     tiny_control_suite(ctx, density)
     hooks_suite(ctx, density)
     views_suite(ctx, density)
+    special_layout_suite(ctx, density)
